@@ -38,7 +38,8 @@ MOD_SRC = {
     "b": "VERSION = {V}\ndef f(x: int) -> int:\n    return VERSION\n",
     "c": "VERSION = {V}\ndef f(x: int) -> int:\n    return VERSION\n",
 }
-SPY = "import os\nSEEN = []\ndef check(fn, *a, **k):\n    SEEN.append(fn.__module__)\n    return fn\n"
+SPY = ("import os\nSEEN = []\ndef check(fn, *a, **k):\n    SEEN.append(fn.__module__)\n    return fn\n"
+       "def make(n):\n    return check\n")
 
 RUNNER = textwrap.dedent('''
     import sys, json, importlib
@@ -47,8 +48,14 @@ RUNNER = textwrap.dedent('''
     sys.path[:0] = [root, repo]
     import jaxtyping
     hook = None
+    hook2 = None
+    second = spec.get("second")   # another hook in the same process, for other modules, with its own typechecker
+    if second and second.get("first"):
+        hook2 = jaxtyping.install_import_hook([prefix + m for m in second["mods"]], second["checker"])
     if spec["hooked"] or spec.get("broken"):
         hook = jaxtyping.install_import_hook([prefix + m for m in spec["hooked"]] + ([prefix + "broken"] if spec.get("broken") else []), spec["checker"])
+    if second and not second.get("first"):
+        hook2 = jaxtyping.install_import_hook([prefix + m for m in second["mods"]], second["checker"])
     if spec.get("broken"):
         # a hooked module whose source does not compile: the program catches the error and carries on
         try:
@@ -58,6 +65,7 @@ RUNNER = textwrap.dedent('''
     for m in spec["order"]:
         importlib.import_module(prefix + m)
     if hook: hook.uninstall()
+    if hook2: hook2.uninstall()
     out = {}
     spies = {n: sys.modules.get(n) for n in ("spy_a", "spy_b")}
     for m in ("a", "b", "c"):
@@ -113,7 +121,15 @@ def run_history(root, prefix, history):
 
 def loads_of(run):
     """the load events of a run, in order, for the model"""
-    key = lambda m: (run["checker"] or "none") if m in run["hooked"] else None  # noqa: E731
+    second = run.get("second") or {"mods": [], "checker": None}
+
+    def key(m):
+        if m in run["hooked"]:
+            return run["checker"] or "none"
+        if m in second["mods"]:
+            return second["checker"] or "none"
+        return None
+
     loads = []
     seen = set()
     for m in run["order"]:
@@ -150,6 +166,12 @@ FIXED = [
      {"hooked": ["b"], "checker": "spy_a.check", "order": ["a", "c"], "nowrite": True}],
     [{"hooked": ["b", "c"], "checker": "spy_b.check", "order": ["a", "c"]}, {"hooked": [], "checker": None, "order": ["a", "c"], "nowrite": True},
      {"hooked": ["c"], "checker": "spy_a.check", "order": ["c"], "nowrite": True}, {"hooked": ["c"], "checker": "spy_a.check", "order": ["c"]}],
+    # two hooks in one process (a library hooking itself, the application hooking its own modules), installed in a
+    # different order in the next run over the same cache
+    [{"hooked": ["a"], "checker": "spy_a.check", "order": ["a", "c"], "second": {"mods": ["c"], "checker": "spy_b.check", "first": False}},
+     {"hooked": ["a"], "checker": "spy_a.check", "order": ["c", "a"], "second": {"mods": ["c"], "checker": "spy_b.check", "first": True}}],
+    [{"hooked": ["c"], "checker": "spy_b.check", "order": ["c", "b"], "second": {"mods": ["b"], "checker": "spy_a.check", "first": True}},
+     {"hooked": ["c"], "checker": "spy_b.check", "order": ["c", "b"]}, {"hooked": ["b"], "checker": "spy_a.check", "order": ["b", "c"]}],
     # None checker then a real spy
     [{"hooked": ["a", "b", "c"], "checker": None, "order": ["c", "a"]}, {"hooked": ["a", "b", "c"], "checker": "spy_a.check", "order": ["a", "c"]}],
 ]
@@ -169,6 +191,10 @@ def gen_history(rng):
             run["broken"] = True
         if rng.chance(1, 4):
             run["nowrite"] = True
+        if rng.chance(1, 3):
+            rest = [m for m in "abc" if m not in hooked]
+            if rest:
+                run["second"] = {"mods": rng.sample(rest, rng.rng(1, len(rest))), "checker": rng.choice(["spy_a.check", "spy_b.check"]), "first": rng.chance(1, 2)}
         h.append(run)
     return h
 
@@ -190,7 +216,8 @@ def evaluate(out, drv, facts, history, outs, idx):
         for m, got in o.items():
             if m.startswith("_"):
                 continue
-            want_instr = ((run["checker"] or "none") if m in run["hooked"] else None)
+            second = run.get("second") or {"mods": [], "checker": None}
+            want_instr = ((run["checker"] or "none") if m in run["hooked"] else (second["checker"] or "none") if m in second["mods"] else None)
             want_version = o["_versions"][m]
             out.count("load_" + ("hooked" if want_instr else "plain"))
             rep = {"history": history, "run": ri, "module": m, "observed": got, "required": {"version": want_version, "instr": want_instr}}
@@ -205,10 +232,39 @@ def evaluate(out, drv, facts, history, outs, idx):
                 out.model_diff(f"cache-model:{m}", f"run {ri}: implementation {got} vs cache model {model[m]}", rep)
 
 
+def tag_collisions(out, n):
+    """different typechecker strings never share a bytecode file name (C18_tags on the real naming function): the names
+    the implementation gives to the cached bytecode of one module under `n` different typechecker strings are distinct"""
+    from jaxtyping._import_hook import Typechecker, _optimized_cache_from_source
+
+    before = set(Typechecker.lookup) if isinstance(Typechecker.lookup, dict) else None
+    names = {}
+    clash = None
+    try:
+        for i in range(n):
+            s_ = f"spy_a.make({i})"
+            p = _optimized_cache_from_source(Typechecker(s_).get_hash(), "/x/mod.py")
+            if p in names and clash is None:
+                clash = (names[p], s_, p)
+            names.setdefault(p, s_)
+    finally:
+        if before is not None and isinstance(Typechecker.lookup, dict):
+            for k in set(Typechecker.lookup) - before:
+                del Typechecker.lookup[k]
+    out.case(("tag-collisions", n), True, sample={"typechecker_strings": n, "distinct_cache_names": len(names)})
+    return clash
+
+
 def run(tier, seed, out, drv, facts):
     rng = Rng(seed, "C18")
     thorough = tier == "thorough"
     histories = list(FIXED) + [gen_history(rng) for _ in range(140 if thorough else 6)]
+    clash = tag_collisions(out, 800000 if thorough else 220000)
+    if clash is not None:
+        # two typechecker strings with one cache name: the second run finds the first run's bytecode
+        s1, s2, p = clash
+        histories.append([{"hooked": ["c"], "checker": s1, "order": ["c"]}, {"hooked": ["c"], "checker": s2, "order": ["c"]}])
+        out.count("tag_collision_found")
     with scratch_dir("jaxverif_c18_") as root:
         for nm in ("spy_a", "spy_b"):
             with open(os.path.join(root, nm + ".py"), "w") as fh:
